@@ -206,9 +206,15 @@ class SymEval:
             if S.is_bool(a) or S.is_bool(b) or a.op in ("cmp", "and", "or", "not") or b.op in ("cmp", "and", "or", "not"):
                 return S.eor(a, b)
             return S.call("bitor", a, b)
+        def _lit(x):
+            return x.is_const and isinstance(x.value, Fraction) and x.value.denominator == 1 and 0 < x.value <= 62
         if isinstance(op, ast.LShift):
+            if _lit(b):
+                return S.mul(a, S.lift(2 ** int(b.value)))  # x << k  is  x * 2**k
             return S.call("lshift", a, b)
         if isinstance(op, ast.RShift):
+            if _lit(b):
+                return S.floordiv(a, S.lift(2 ** int(b.value)))  # x >> k  is  x // 2**k (arithmetic shift: floor)
             return S.call("rshift", a, b)
         if isinstance(op, ast.MatMult):
             return S.call("matmul", a, b)
